@@ -57,7 +57,11 @@ async def async_map_unordered(
         finished, pending = await asyncio.wait(
             pending, return_when=asyncio.FIRST_COMPLETED, timeout=2
         )
+        # tasks whose backup twin has already delivered the result for their input in this round
+        superseded = set()
         for task in finished:
+            if task in superseded:
+                continue
             # TODO: use exception groups in Python 3.11 to handle case of multiple task exceptions
             if task.exception():
                 # if the task has a backup that is not done, or is done with no exception, then don't raise this exception
@@ -82,6 +86,7 @@ async def async_map_unordered(
                 if backup:
                     if backup in pending:
                         pending.remove(backup)
+                    superseded.add(backup)
                     del backups[task]
                     del backups[backup]
                     backup.cancel()
